@@ -147,6 +147,66 @@ def stale_family(rng=None):
     return out
 
 
+def requeue_family(rng=None):
+    """Several messages wait in the queue behind two busy handlers: the first one issued a nested request (its loop was replaced)
+    and returns first, while the replacement loop is still busy with the second handler's own work.  The replaced loop then
+    stands at its select with its loopDone closed *and* the queue ready (Go picks either): whether it leaves or takes the
+    next message, every message must reach its handler in arrival order (`dispatch-order`)."""
+    out = []
+    combos = [(tr, q, x, n) for tr in ("udp", "tcp") for q in (16, 6) for x in ("n", "g") for n in (3, 5)]
+    if rng is not None:
+        combos = [rng.choice(combos) for _ in range(8)]
+    for tr, q, x, n in combos:
+        a, b = (500, 3000) if rng is None else (rng.choice([200, 500, 900]), rng.choice([2000, 3000, 5000]))
+        ans = "sep:1" if (tr == "udp" and x == "n") else "resp:1"
+        burst = "burst:" + "-".join(str(3 + i) for i in range(n))
+        # handler 1: nested request, answered at once, then it works on for a ms; handler 2 works b ms on the new loop
+        out.append("scn %s %d 0 0 arrive:1:%s1+s%d %s arrive:2:s%d %s sleep:%d sleep:%d settle" % (tr, q, x, a, ans, b, burst, a + 100, b + 500))
+        # the same, the messages arrive one by one
+        out.append("scn %s %d 0 0 arrive:1:%s1+s%d %s arrive:2:s%d %s sleep:%d sleep:%d settle"
+                   % (tr, q, x, a, ans, b, " ".join("arrive:%d:r" % (3 + i) for i in range(n)), a + 100, b + 500))
+    return out
+
+
+def callback_family(rng=None):
+    """An observation's callback issues a nested request on its own connection; before the answer, further notifications of the
+    same observation (and ordinary requests) arrive, then the answer: the callback's request must get it, every notification
+    must reach the callback once and in order."""
+    out = []
+    combos = [(tr, q, x, m) for tr in ("udp", "tcp") for q in (16, 1, 0) for x in ("g", "n") for m in (1, 2)]
+    if rng is not None:
+        combos = [rng.choice(combos) for _ in range(6)]
+    for tr, q, x, m in combos:
+        ans = "sep:7" if (tr == "udp" and x == "n") else "resp:7"
+        more = " ".join(["note:1"] * m)
+        out.append("scn %s %d 0 0 watch:1:%s7 resp:1 note:1 %s %s sleep:31000 settle" % (tr, q, x, more, ans))
+        out.append("scn %s %d 0 0 watch:1:%s7 resp:1 note:1 arrive:1:r %s arrive:2:r %s note:1 sleep:31000 settle" % (tr, q, x, more, ans))
+    # two observations: a notification of the other one in between; a nested ping from the callback
+    out.append("scn tcp 16 0 0 watch:1:g7 resp:1 watch:2:r resp:2 note:1 note:2 note:1 resp:7 note:2 sleep:31000 settle")
+    out.append("scn udp 16 0 0 watch:1:g7 resp:1 watch:2:r resp:2 note:1 note:2 note:1 resp:7 note:2 sleep:31000 settle")
+    out.append("scn tcp 16 0 0 watch:1:p resp:1 note:1 note:1 pong sleep:11000 settle")
+    out.append("scn udp 16 0 0 watch:1:p resp:1 note:1 note:1 pong sleep:11000 settle")
+    return out
+
+
+def framesize_family(rng=None):
+    """Stream transport with a small read buffer (ConnectionCacheSize n, `tcp@n`): frames whose size makes the bytes pending at
+    one read k*n-1, k*n, k*n+1 — a request, the awaited answer of a nested call, the answer of a call outside a handler.  A
+    complete frame must be dispatched when it has arrived, not when the peer sends something else."""
+    out = []
+    combos = [(c, k, d) for c in (16, 64) for k in (1, 2, 3) for d in (-1, 0, 1)]
+    if rng is not None:
+        combos = [(rng.choice([16, 32, 64, 100]), rng.choice([1, 2, 3, 4, 5]), rng.choice([-1, 0, 0, 1])) for _ in range(8)]
+    for c, k, d in combos:
+        n = k * c + d
+        if n < 14:
+            continue
+        out.append("scn tcp@%d 16 0 0 pad:%d arrive:1:r settle sleep:1000 settle" % (c, n))
+        out.append("scn tcp@%d 16 0 0 arrive:1:g1 pad:%d resp:1 sleep:31000 settle" % (c, n))
+        out.append("scn tcp@%d 1 0 0 call:g1 pad:%d resp:1 sleep:100 pad:%d arrive:1:r pad:%d arrive:2:r sleep:31000 settle" % (c, n, n, n + c))
+    return out
+
+
 FIXED = [
     # F11 with the default limits 1/1: the answer is on the connection, nobody reads it, the outer call times out at 30 s
     "scn tcp 16 1 1 call:g9 arrive:1:g1 resp:9 sleep:31000 settle",
@@ -192,9 +252,11 @@ def corpus_lines():
 
 def gen_lines(ctx):
     rng = random.Random(ctx.seed * 7727 + 11)
-    L = [(l, True) for l in corpus_lines() + FIXED + stale_family()]
+    L = [(l, True) for l in corpus_lines() + FIXED + stale_family() + requeue_family() + callback_family() + framesize_family()]
     for _ in range(40 if ctx.tier == "thorough" else 6):
         L += [(l, True) for l in stale_family(rng)]
+    for _ in range(30 if ctx.tier == "thorough" else 3):
+        L += [(l, True) for l in requeue_family(rng) + callback_family(rng) + framesize_family(rng)]
     for _ in range(10000 if ctx.tier == "thorough" else 1500):
         L.append(gen_scenario(rng))
     return L
